@@ -1023,4 +1023,121 @@ theorem addParams_opts {q : List (String × QV)} {md : List (Nat × Nat)} {p : A
     · simp at h
   · simp at h
 
+theorem boolCarried_of_param {v : QV} {d x : Bool} (h : boolParam v d = some x) : boolCarried v d x = true := by
+  cases v with
+  | empty => simp [boolParam] at h; simp [boolCarried, h]
+  | valid w => cases w <;> simp [boolParam] at h <;> simp [boolCarried, h]
+  | invalid => simp [boolCarried]
+  | garbled => simp [boolCarried]
+
+theorem wordCarried_of_param {v : QV} {x : String} (h : wordParam v = some x) : wordCarried v "" x = true := by
+  cases v with
+  | empty => simp [wordParam] at h; simp [wordCarried, h]
+  | valid w => cases w <;> simp [wordParam] at h <;> simp [wordCarried, h]
+  | invalid => simp [wordCarried]
+  | garbled => simp [wordCarried]
+
+theorem wordCarried_kept (v : QV) (d : String) : wordCarried v d (keptWord v d) = true := by
+  cases v with
+  | empty => simp [wordCarried, keptWord]
+  | valid w => cases w <;> simp [wordCarried, keptWord]
+  | invalid => simp [wordCarried]
+  | garbled => simp [wordCarried]
+
+theorem hashIsOther_eq (q : List (String × QV)) : hashIsOther q = otherHash q := rfl
+
+theorem cidvCarried_of_eff {q : List (String × QV)} {c : Int}
+    (h : (intParam (getq q "cid-version") 0).bind (effCidv q) = some c) : cidvCarried q c = true := by
+  unfold cidvCarried
+  rw [hashIsOther_eq]
+  cases hv : getq q "cid-version" with
+  | empty =>
+    simp [hv, intParam, effCidv] at h
+    cases ho : otherHash q <;> simp [ho] at h <;> simp [h]
+  | valid w =>
+    cases w <;> simp [hv, intParam] at h
+    rename_i i
+    simp only [effCidv, hv] at h
+    split at h
+    · simp at h
+    · simp at h; simp [h]
+  | invalid => simp
+  | garbled => simp
+
+/-- every field of the `AddParams` built from a query carries the query's add option exactly -/
+theorem seenExact_of_addParams {q : List (String × QV)} {md : List (Nat × Nat)} {p : AddParams}
+    (h : addParams q md = some p) : seenExact q p.seen = true := by
+  unfold addParams at h
+  split at h
+  · rename_i o layout format loc recursive hidden wrap shard progress cidv ho hla hfo hlo hre hhi hwr hsh hpr hcv
+    split at h
+    · rename_i raw stream nocopy hra hst hnc
+      simp only [Option.some.injEq] at h
+      subst h
+      simp only [seenExact, AddParams.seen, Bool.and_eq_true]
+      refine ⟨⟨⟨⟨⟨⟨⟨⟨⟨⟨⟨⟨⟨?_, ?_⟩, ?_⟩, ?_⟩, ?_⟩, ?_⟩, ?_⟩, ?_⟩, ?_⟩, ?_⟩, ?_⟩, ?_⟩, ?_⟩, ?_⟩
+      · exact wordCarried_of_param hla
+      · exact wordCarried_kept _ _
+      · exact wordCarried_kept _ _
+      · exact wordCarried_of_param hfo
+      · exact boolCarried_of_param hlo
+      · exact boolCarried_of_param hre
+      · exact boolCarried_of_param hhi
+      · exact boolCarried_of_param hwr
+      · exact boolCarried_of_param hsh
+      · exact boolCarried_of_param hpr
+      · exact cidvCarried_of_eff hcv
+      · exact boolCarried_of_param hra
+      · exact boolCarried_of_param hst
+      · exact boolCarried_of_param hnc
+    · simp at h
+  · simp at h
+
+theorem addParams_rawLeaves {q : List (String × QV)} {md : List (Nat × Nat)} {p : AddParams} {b : Bool}
+    (h : addParams q md = some p) (hb : getq q "raw-leaves" = .valid (.bool b)) : p.rawLeaves = b := by
+  have := seenExact_of_addParams h
+  simp only [seenExact, Bool.and_eq_true] at this
+  have h12 := this.1.1.2
+  simpa [boolCarried, hb, AddParams.seen] using h12
+
+/-- the leaf form of the model's answer is the one the request names -/
+theorem leafExact_addHandle0 (r : AddReq) (p : AddParams) (hg : hasGarbled r.query = false)
+    (hp : addParams r.query r.md = some p) : leafExact r.query (addHandle0 r).leaf = true := by
+  unfold leafExact
+  cases hv : getq r.query "raw-leaves" with
+  | valid w =>
+    cases w with
+    | bool b =>
+      have hb := addParams_rawLeaves hp hv
+      unfold addHandle0
+      simp only [hg, hp, Bool.false_eq_true, if_false]
+      by_cases h1 : (r.creds && r.auth != .right) = true <;> by_cases h2 : (r.mp == Multipart.none) = true <;>
+        by_cases h3 : lateFailure r p = true <;> by_cases h4 : (r.rpc != .ok) = true <;>
+        simp [h1, h2, h3, h4, hb, errorAnswer] <;> (try (cases p.stream <;> simp)) <;> (try (cases b <;> simp))
+    | _ => simp
+  | _ => simp
+
+theorem late_agrees {q : List (String × QV)} {md : List (Nat × Nat)} {p : AddParams}
+    (h : addParams q md = some p) (hr : p.rawLeaves = true ∨ otherHash q = false ∨ getq q "cid-version" ≠ .empty) :
+    (addParamsLate q md).map (·.seen) = some p.seen := by
+  have hcv : ∃ c, (intParam (getq q "cid-version") 0).bind (effCidv q) = some c := by
+    unfold addParams at h
+    split at h
+    · rename_i hcv; exact ⟨_, hcv⟩
+    · simp at h
+  obtain ⟨c, hc⟩ := hcv
+  cases hi : intParam (getq q "cid-version") 0 with
+  | none => simp [hi] at hc
+  | some v0 =>
+    simp only [addParamsLate, h, hi]
+    by_cases hcond : (otherHash q && v0 == 0) = true
+    · simp only [hcond, if_true, Option.map_some]
+      rcases hr with hr | hr | hr
+      · congr 1; simp [AddParams.seen, hr]
+      · simp [hr] at hcond
+      · exfalso
+        simp only [hi, Option.bind_some, effCidv, hcond, if_true] at hc
+        simp [hr] at hc
+    · simp [hcond]
+
 end CV.C11
